@@ -711,6 +711,9 @@ pub enum FaultClass {
     Transparent,
     /// statement is silent (e.g. EAGAIN once): either
     Either,
+    /// short reads / short writes only: no call reports an error, so nothing has failed and the run must be
+    /// indistinguishable from the fault-free one (same exit status, same sinks)
+    Invisible,
 }
 
 #[derive(Clone, Debug)]
@@ -782,7 +785,8 @@ pub fn fault_plans(log: &[LogLine], rng: &mut Rng, limit: usize) -> Vec<FaultPla
                 plans.push(mk(vec![Rule::new("read", &target, &nth, "errno:EIO")], FaultClass::Hard, false, "read:EIO", pos));
                 plans.push(mk(vec![Rule::new("read", &target, &nth, "eintr")], FaultClass::Transparent, false, "read:eintr", pos));
                 let n = 1 + rng.below(9);
-                plans.push(mk(vec![Rule::new("read", &target, &from, &format!("short:{n}"))], FaultClass::Transparent, false, "read:short", pos));
+                plans.push(mk(vec![Rule::new("read", &target, &from, &format!("short:{n}"))], FaultClass::Invisible, false, "read:short", pos));
+                plans.push(mk((0..3).map(|d| Rule::new("read", &target, &format!("nth:{}", k + d), "eintr")).collect(), FaultClass::Transparent, false, "read:eintr-x3", pos));
             }
             ("write", _) => {
                 plans.push(mk(vec![Rule::new("write", &target, &from, "errno:ENOSPC")], FaultClass::Hard, true, "write:ENOSPC-from", pos));
@@ -791,7 +795,9 @@ pub fn fault_plans(log: &[LogLine], rng: &mut Rng, limit: usize) -> Vec<FaultPla
                 plans.push(mk(vec![Rule::new("write", &target, &nth, "eintr")], FaultClass::Transparent, true, "write:eintr", pos));
                 plans.push(mk(vec![Rule::new("write", &target, &nth, "errno:EAGAIN")], FaultClass::Either, true, "write:EAGAIN-once", pos));
                 let n = 1 + rng.below(7);
-                plans.push(mk(vec![Rule::new("write", &target, &from, &format!("short:{n}"))], FaultClass::Transparent, true, "write:short", pos));
+                plans.push(mk(vec![Rule::new("write", &target, &from, &format!("short:{n}"))], FaultClass::Invisible, true, "write:short", pos));
+                plans.push(mk((0..3).map(|d| Rule::new("write", &target, &format!("nth:{}", k + d), "eintr")).collect(), FaultClass::Transparent, true, "write:eintr-x3", pos));
+                plans.push(mk(vec![Rule::new("write", &target, &from, "zero")], FaultClass::Hard, true, "write:zero-from", pos));
                 plans.push(mk(vec![Rule::new("write", &target, &nth, &format!("short:{n}")), Rule::new("write", &target, &format!("from:{}", k + 1), "errno:ENOSPC")], FaultClass::Hard, true, "write:short-then-ENOSPC", pos));
             }
             _ => {}
@@ -803,7 +809,13 @@ pub fn fault_plans(log: &[LogLine], rng: &mut Rng, limit: usize) -> Vec<FaultPla
             let a = plans[rng.usize_below(plans.len())].clone();
             let b = plans[rng.usize_below(plans.len())].clone();
             if a.rules[0].target != b.rules[0].target || a.rules[0].op != b.rules[0].op {
-                let class = if a.class == FaultClass::Hard || b.class == FaultClass::Hard { FaultClass::Either } else { a.class.clone() };
+                let class = if a.class == FaultClass::Hard || b.class == FaultClass::Hard || a.class == FaultClass::Either || b.class == FaultClass::Either {
+                    FaultClass::Either
+                } else if a.class == FaultClass::Invisible && b.class == FaultClass::Invisible {
+                    FaultClass::Invisible
+                } else {
+                    FaultClass::Transparent
+                };
                 let mut rules = a.rules.clone();
                 rules.extend(b.rules.iter().cloned());
                 plans.push(FaultPlan { rules, class, write_side: a.write_side || b.write_side, kind: "two-faults".into(), position: "mixed".into(), stdout_kind: StdoutKind::File });
@@ -825,7 +837,7 @@ fn is_prefix(a: &[u8], of: &[u8]) -> bool {
 pub fn check_fault_run(w: &C12World, e: &Sinks, base_exit: Option<i32>, plan: &FaultPlan, out: &RunOut) -> Result<(), (String, String, String)> {
     let fired = out.log.iter().any(|l| l.injected);
     // a hard fault counts only if a failing result (other than EINTR) was actually delivered
-    let hard_fired = out.log.iter().any(|l| l.injected && matches!(&l.result, Err(e) if e != "EINTR" && e != "EAGAIN"));
+    let hard_fired = out.log.iter().any(|l| l.injected && (matches!(&l.result, Err(e) if e != "EINTR" && e != "EAGAIN") || (l.op == "write" && l.result == Ok(0) && l.n.unwrap_or(0) > 0)));
     let bad = |inv: &str, class: &str, msg: String| Err((inv.to_string(), format!("{class}:{}", plan.kind), msg));
     if out.timed_out {
         return bad("I1", "timeout", "run exceeded 20 s".into());
@@ -856,6 +868,10 @@ pub fn check_fault_run(w: &C12World, e: &Sinks, base_exit: Option<i32>, plan: &F
         }
         return Ok(());
     }
+    if plan.class == FaultClass::Invisible && (out.exit != base_exit || sinks != *e) {
+        // short reads / short writes are not failures: every call succeeded, the tool has to carry on
+        return bad("I2", "short-io-changed-run", format!("only short reads/writes were injected (no call failed) but exit {:?} (fault-free {:?}) or the sinks differ; stderr {}", out.exit, base_exit, trunc(&out.stderr)));
+    }
     if out.exit == Some(0) {
         // I2: acknowledged => durable and complete
         if sinks != *e {
@@ -872,6 +888,17 @@ pub fn check_fault_run(w: &C12World, e: &Sinks, base_exit: Option<i32>, plan: &F
         return bad("I3", "silent-failure", "exit 1 with nothing on stderr".into());
     }
     if plan.write_side {
+        // "writes nothing to stdout or the -o file": a sink may hold a partial manifestation only if the failing call
+        // was a write on that very sink (the bytes accepted before the failure cannot be taken back)
+        let hit = |t: &str| out.log.iter().any(|l| l.injected && l.target == t);
+        if !sinks.stdout.is_empty() && !hit("fd:1") {
+            return bad("I3", "stdout-on-other-sink-failure", format!("{} bytes on stdout although the run fails and no write to stdout was faulted", sinks.stdout.len()));
+        }
+        if let Some(op) = &w.mode.o {
+            if sinks.o != w.o_before && !hit(&format!("path:{op}")) {
+                return bad("I3", "o-file-on-other-sink-failure", "-o file created or modified although the run fails and no call on the -o file was faulted".into());
+            }
+        }
         if !is_prefix(&sinks.stdout, &e.stdout) {
             return bad("I3", "stdout-not-prefix", format!("stdout after a write fault is not a prefix of the manifestation ({} bytes)", sinks.stdout.len()));
         }
